@@ -62,11 +62,14 @@ def dispatch(ctx, repo):
             ctx.violation("S-dispatch", f"{facname}|{k}|no-branch", fl.loc(fd), f"{facname} has no branch for aggregation kind {k!r}")
         for k, (ifn, inner) in sorted(br.items()):
             want = pat.format(k=k)
-            rets = [n for n in walk_own(inner) if isinstance(n, ast.Return)]
+            # the unique call of an aggregation kernel inside the inner function (returned directly or via a local)
+            kcalls = [n for n in ast.walk(inner) if isinstance(n, ast.Call) and isinstance(n.func, ast.Name) and (n.func.id.startswith("grouped_") or n.func.id.endswith("_by_p_id"))]
+            if len(kcalls) != 1:
+                raise AnalysisError(f"{facname}, kind {k!r}: inner function does not contain exactly one kernel call; S-dispatch needs a re-read")
             ok = False
             msg = ""
-            if len(rets) == 1 and isinstance(rets[0].value, ast.Call) and isinstance(rets[0].value.func, ast.Name):
-                call = rets[0].value
+            if True:
+                call = kcalls[0]
                 callee = call.func.id
                 iparams = [a.arg for a in inner.args.args]
                 cargs = [ast.unparse(a) for a in call.args] + [f"{kw.arg}={ast.unparse(kw.value)}" for kw in call.keywords]
@@ -88,8 +91,6 @@ def dispatch(ctx, repo):
                         msg = f"does not pass exactly its own parameters {iparams}"
                     else:
                         ok = True
-            else:
-                msg = "inner function is not a single `return <callee>(...)`"
             ctx.ob("S-dispatch", ok=ok, distinct=(facname, k))
             if not ok:
                 ctx.violation("S-dispatch", f"{facname}|{k}|{msg}", fl.loc(inner), f"{facname}, kind {k!r}: {msg}")
